@@ -368,3 +368,15 @@ def alignment_induction(prog: Program, chk: Check):
         N.bad(fkey(ca, k), where(ca), v)
     chk.extra_coverage.update({"alignment_sequences_interpreted": nrun, "alignment_interpreter_steps": steps, "exhaustive": True,
                                "alignment_abstraction": "offset mod 8 (leading char[r]) x {native a in 1,2,4,8 with len None/1/2/3; struct a x size a,3a with len None/2}"})
+
+    # ---- T the size assertion compares with fixed-width types ---------------------------------------------------------------------------
+    # check_alignment ends with `assert s.size == get_ctype_size(s)`.  The mirror must use fixed-width ctypes types: c_long /
+    # c_ulong are 8 bytes on LP64 platforms while RTMA's long is 4, so a definition that needs no padding at all would be refused.
+    from .c04 import ctypes_table_entries
+    from .c15 import PLATFORM_SIZED_CTYPES
+
+    T = chk.rule("C11-T", "the ctypes mirror used by the final size assertion maps every native name to a fixed-width ctypes type", 20,
+                 "a platform-sized mirror type makes the assertion reject definitions that are perfectly aligned ('accepted exactly when it needs none')")
+    for key, tname, loc in ctypes_table_entries(prog):
+        T.decide(tname not in PLATFORM_SIZED_CTYPES, f"{PAR}|ctype:{key}", loc, f"{key} -> {tname}",
+                 f"native type `{key}` is mirrored by ctypes.{tname} (8 bytes on 64-bit Linux / macOS, RTMA's is 4): a definition with such a field fails the size assertion although it needs no padding")
